@@ -18,7 +18,7 @@ WALL = {'quick': 150, 'thorough': 3000}
 CHUNK = 8
 DET_K = 4
 CASE_TIMEOUT = 900
-SELFTEST = {'quick': 32, 'thorough': 128}
+SELFTEST = {'quick': 12, 'thorough': 128}
 EPS = 2.220446049250313e-16
 RULE = ('case kinds (swarm-weighted): norms = random sign-changing (or constant one) 4-D field and complex '
         '3-D field on seeded non-uniform r and v grids, every process grid, the norm/energy classes in each '
